@@ -849,6 +849,39 @@ def replay_subst_partial(args):
     return (False, "; ".join(bad[:3])) if bad else (True, "held")
 
 
+def _parameter_cast_problem(how):
+    """a parameter that is being estimated (requires_grad) and is then cast (model.to(dtype), as `--dtype` does): it still receives the gradient"""
+    from torchtree.core.parameter import Parameter
+    p_ = Parameter("p", torch.tensor([1.0, 2.0], dtype=torch.float32, requires_grad=True))
+    if how == "to(dtype)":
+        p_.to(torch.float64)
+    elif how == "to(dtype=)":
+        p_.to(dtype=torch.float64)
+    else:
+        p_.to(torch.float32)        # a cast that changes nothing
+    (p_.tensor ** 2).sum().backward()
+    if p_.grad is None:
+        return "Parameter float32 with requires_grad, then %s: after backward of a value it influences the parameter has no gradient (is_leaf=%s)" % (how, p_.tensor.is_leaf)
+    want = 2 * p_.tensor.detach()
+    if not torch.allclose(p_.grad.to(want.dtype), want):
+        return "Parameter after %s: gradient %s, expected %s" % (how, p_.grad.tolist(), want.tolist())
+    return None
+
+
+def ob_parameter_cast(how):
+    def body():
+        msg = _parameter_cast_problem(how)
+        if msg:
+            raise Refuted(msg, witness={"how": how}, confirmed=True, replay={"kind": "custom", "contract": "C12", "func": "replay_parameter_cast", "args": {"how": how}})
+        return {"backend": "real autograd", "cases": 1, "statement": "an estimated parameter stays a leaf through %s and receives its gradient" % how}
+    return Ob("C12.parameter.cast.requires_grad[%s]" % how, "B", body, clause="no parameter that influences the value receives a missing gradient (parameter cast after requires_grad was set)", funcs=FUNCS)
+
+
+def replay_parameter_cast(args):
+    msg = _parameter_cast_problem(args["how"])
+    return (False, msg) if msg else (True, "held")
+
+
 def _bdsk_times_problems(relative):
     """the rate-shift times of the skyline are parameters like the others: when they are estimated they receive the derivative of the value"""
     import torchtree.evolution.bdsk as bd
@@ -990,6 +1023,8 @@ def obligations(tier, seed):
             obs.append(ob_subst_partial(kind, estimated))
     for relative in (False, True):
         obs.append(ob_bdsk_times(relative))
+    for how in ("to(dtype)", "to(dtype=)", "to(same dtype)"):
+        obs.append(ob_parameter_cast(how))
     for which in ("skyline", "constant"):
         for delta in (1, 20, 25, 31, 60):
             obs.append(ob_bd_gradient_range(which, delta))
